@@ -882,6 +882,8 @@ func TestVerifC20(t *testing.T) {
 			c20AppendCase(t, out, r, dir, "across-the-buffer-size", [][]c20Line{a, b}, sched)
 		})
 	}
+	// round 7: the position of the T member inside the line
+	c20TOffsetCases(t, out, dir, rnd, sched, out.Scale(3, 40))
 	// the byte-level windows queued by the heavy cases count as heavy as well
 	nLight := nSmall + out.Scale(60, 300) + out.Scale(25, 324) + out.Scale(150, 1200)
 	sched.period = nLight / (2*len(sched.heavy) + 4)
